@@ -29,6 +29,27 @@ def cone(ctx, facts):
     return facts.cone(roots, stop=lambda b: b.key == build.key)
 
 
+def _sorted_for_dedup(ctx, facts, b):
+    """On every returning way through the function, each `sort` of a vector is followed by a `dedup` of the same vector."""
+    from .. import semq as Q
+    from ..worldrules import _deep_all
+    fn = facts.bodies.get(b.root_key, b) if b.is_closure and b.root_key else b
+    try:
+        ev, ends = Q.sem(ctx, facts, fn, only=[])
+    except Exception:
+        return False
+    n = 0
+    for e in Q.returns(ends):
+        evs = [x for x in _deep_all(e.path.events) if x[0] == "call" and not x[2].local and x[3]]
+        for i, x in enumerate(evs):
+            if x[2].name in ("sort", "sort_unstable"):
+                r = Q.strip(ev, x[3][0])
+                if not any(y[2].name in ("dedup", "dedup_by", "dedup_by_key") and Q.strip(ev, y[3][0]) == r for y in evs[i + 1:]):
+                    return False
+                n += 1
+    return n >= 1
+
+
 def scan(ctx, report, facts, config, pfx="C19"):
     cn = cone(ctx, facts)
     report.floor(pfx + ".NOHASHITER", "bodies in the placement cone", len(cn), 40, config=config)
@@ -41,9 +62,10 @@ def scan(ctx, report, facts, config, pfx="C19"):
         ou = I.order_uses(b, ("",))  # every ordering-consulting call of the body
         bad = []
         for bb, c in ou:
-            if c.name in ("sort", "sort_unstable") and "[shred::world::ResourceId]" in c.inst_path:
+            if c.name in ("sort", "sort_unstable") and _sorted_for_dedup(ctx, facts, b):
                 n_sort += 1
-                # must be followed by dedup / used as a set: accepted idiom (order-insensitive consumers downstream)
+                # followed by dedup on the same vector on every way: the accepted idiom for "make it a set"
+                # (whether written on ids directly or in a generic helper the placement code calls with ids)
                 continue
             if b.container == "trait_impl" and b.trait in ("std::cmp::Ord", "std::cmp::PartialOrd") and (b.raw.get("span", {}).get("exp")):
                 continue  # inside the derived comparison itself
@@ -63,7 +85,7 @@ def scan(ctx, report, facts, config, pfx="C19"):
         report.ob(pfx + ".NOENV", b.qname, not env, "no environment source" if not env else
                   "reads an environment-dependent source (%s)" % (env[0][1].short() if hasattr(env[0][1], "short") else env[0][1]),
                   site=b.loc(env[0][0]) if env else b.loc(), config=config)
-    report.floor(pfx + ".EQONLY", "sort-for-dedup sites on ResourceId", n_sort, 3, config=config)
+    report.floor(pfx + ".EQONLY", "sort-for-dedup sites in the placement cone", n_sort, 1, config=config)
     # names: the map is only touched through get / entry / contains_key / len / is_empty in the whole crate's placement code
     add = facts.one(A.DB + "::add")
     names_used = set()
